@@ -349,6 +349,52 @@ def run(tier):
                              {"relation": "request returns a well-formed result", "document": d,
                               "variables": rv, "impl": bad})
     ck.count("hostile_variable_requests", nhost)
+    # custom scalars whose value/literal/output coercion raises every exception class of the pool (also classes that are
+    # neither GraphQLError nor TypeError/ValueError): variables at top level, in lists, in input objects; literals; results
+    from graphql import (GraphQLArgument, GraphQLField, GraphQLInputField, GraphQLInputObjectType, GraphQLInt, GraphQLList,
+                         GraphQLNonNull, GraphQLObjectType, GraphQLScalarType, GraphQLSchema)
+    import decimal as _dec
+    more_excs = pool + [lambda: _dec.InvalidOperation(), lambda: AttributeError("a"), lambda: OverflowError("o"),
+                        lambda: IndexError("i"), lambda: ArithmeticError(), lambda: BufferError(), lambda: EOFError(),
+                        lambda: NotImplementedError(), lambda: RuntimeError("r"), lambda: SystemError("s"), lambda: UnicodeError("u")]
+    ncustom = 0
+    for mk in more_excs:
+        def boom(*_a, _mk=mk, **_k):
+            raise _mk()
+        for where in ("parse_value", "parse_literal", "serialize"):
+            kw = {"parse_value": (boom if where == "parse_value" else (lambda v: v)),
+                  "parse_literal": (boom if where == "parse_literal" else None),
+                  "serialize": (boom if where == "serialize" else (lambda v: v))}
+            odd = GraphQLScalarType("Odd", **{k: v for k, v in kw.items() if v is not None})
+            in_odd = GraphQLInputObjectType("InOdd", {"o": GraphQLInputField(odd), "os": GraphQLInputField(GraphQLList(GraphQLNonNull(odd)))})
+            args = {"o": GraphQLArgument(odd), "os": GraphQLArgument(GraphQLList(odd)), "i": GraphQLArgument(in_odd)}
+            q = GraphQLObjectType("Query", {"odd": GraphQLField(odd, args=args, resolve=lambda *_a, **_k: 1),
+                                            "odds": GraphQLField(GraphQLList(GraphQLNonNull(odd)), resolve=lambda *_a: [1, 2]),
+                                            "a": GraphQLField(GraphQLInt, resolve=lambda *_a: 1)})
+            cschema = GraphQLSchema(q)
+            creqs = [("query($v: Odd) { odd(o: $v) a }", {"v": 1}), ("query($v: [Odd]) { odd(os: $v) a }", {"v": [1, None, "x"]}),
+                     ("query($v: InOdd) { odd(i: $v) a }", {"v": {"o": 1, "os": [2]}}), ("query($v: Odd = 5) { odd(o: $v) }", {}),
+                     ("{ odd(o: 1, os: [2, \"s\"], i: {o: {k: [1]}, os: [3]}) a }", None), ("{ odds a }", None),
+                     ("query($v: Odd!) { odd(o: $v) }", {"v": None})]
+            for d, vars_ in creqs:
+                try:
+                    res = graphql_sync(cschema, d, variable_values=vars_)
+                    bad = wf_response(res)
+                except Exception as e:  # noqa: BLE001
+                    bad = f"graphql_sync raised {type(e).__name__}: {e!r}"[:200]
+                nreq += 1
+                ncustom += 1
+                try:
+                    exc_name = type(mk()).__name__
+                except Exception:  # noqa: BLE001
+                    exc_name = "?"
+                ck.note_case(("custom-scalar", where, exc_name, d), nontrivial=True)
+                if bad:
+                    ck.violation(f"custom-scalar:{where}:{exc_name}:{d!r}",
+                                 f"custom scalar whose {where} raises {exc_name}: graphql_sync({d!r}, variables={vars_!r}): {bad}",
+                                 {"relation": "request returns a well-formed result", "document": d, "variables": repr(vars_),
+                                  "scalar_hook": where, "raises": exc_name, "impl": bad})
+    ck.count("custom_scalar_requests", ncustom)
     # every exception class of the pool, raised at a nullable and at a non-null position
     for mk in pool:
         for d, fld in (("{ a o { a } }", "a"), ("{ nn }", "nn"), ("{ o { o { nn } } a }", "nn"), ("mutation M { m }", "m")):
